@@ -235,8 +235,20 @@ def tuple_exhaustive():
         cs.append(("ex-tup-%s" % k, ls))
     return cs
 
+def il_cases(rng=None, n=0):
+    """initializer_list element category (std::vector<int>, Bag): constructor arguments (a, b) with a != b so that
+    T(a, b) and T{a, b} differ, plus single-argument forms"""
+    cs = [("ex-il-small", ["type il F"] + ["fwd %d %d" % (a, b) for a in range(0, 5) for b in (0, 1, 7)] + ["one %d" % a for a in range(0, 5)])]
+    for i in range(n):
+        cs.append(("g-il-%d" % i, ["type il F"] + ["fwd %d %d" % (rng.randrange(0, 9), rng.randrange(-5, 100)) for _ in range(4)] + ["one %d" % rng.randrange(0, 9)]))
+    return cs
+
 def corpus(exp_copy_assign=True):
     cs = []
+    # seeded change caught in round 2: manual_box::initialize with T{args...} (vector<int>(3, 7) became {3, 7})
+    cs.append(("corpus-il-initialize-braces", ["type il F", "fwd 3 7", "one 3"]))
+    # seeded change caught in round 2: _tuple::storage converting constructor taking its source by value
+    cs.append(("corpus-tuple-view-of-lvalue", ["type tup F", "static"]))
     # D18: variant empty-to-empty assignment ran into FRG_ASSERT (variant.hpp:92-93 -> assign_<N>)
     cs.append(("corpus-d18-empty-to-empty-copy", ["type var F", "new 0", "new 1", "assign 0 1", "tag 0"]))
     cs.append(("corpus-d18-empty-to-empty-move", ["type var M", "new 0", "new 1", "massign 0 1", "tag 0"]))
